@@ -83,7 +83,9 @@ def impl_create(a):
     else:
         fresh = ["ok", [cid, _valid_id(cid)]]
     try:
-        cid2 = _build(a, reuse=True).create_compose_id()
+        robj = _build(a, reuse=True)
+        cid2 = robj.create_compose_id()
+        robj.compose.id = cid2               # the usual `ci.compose.id = ci.create_compose_id()`
     except EXC as e:
         reused = exc_result(e)
     else:
